@@ -538,6 +538,39 @@ func TestC09(t *testing.T) {
 				}
 			}
 		}
+		// lists against single items that are none of their members
+		lists := map[string]ap.Item{
+			"ItemCollection[iri]":        ap.ItemCollection{ap.IRI("https://example.com/l/1")},
+			"ItemCollection[iri,object]": ap.ItemCollection{ap.IRI("https://example.com/l/1"), &ap.Object{ID: "https://example.com/l/2", Type: ap.NoteType}},
+			"ItemCollection[object]":     ap.ItemCollection{&ap.Object{ID: "https://example.com/l/2", Type: ap.NoteType}},
+			"IRIs[1]":                    ap.IRIs{"https://example.com/l/1"},
+			"IRIs[2]":                    ap.IRIs{"https://example.com/l/1", "https://example.com/l/2"},
+		}
+		for _, ln := range []string{"ItemCollection[iri]", "ItemCollection[iri,object]", "ItemCollection[object]", "IRIs[1]", "IRIs[2]"} {
+			singles := []ap.Item{ap.IRI("https://example.com/single")}
+			for _, st := range vocab.StructTypes {
+				singles = append(singles, mk(st, "https://example.com/single", vocab.DefaultType[st.Name()], false))
+			}
+			for _, z := range singles {
+				for _, ord := range []string{"list,single", "single,list"} {
+					cell := fmt.Sprintf("%s vs %s (%s)", ln, vocab.GoTypeName(z), ord)
+					if !r.WantCell(cell) {
+						continue
+					}
+					n++
+					a, b := lists[ln], z
+					if ord == "single,list" {
+						a, b = z, lists[ln]
+					}
+					r.Case(cell, true, "cross-type list-vs-single")
+					if res, key, detail := c09Equal(a, b); key != "" {
+						r.Report("cross-type", cell, key, detail, cell)
+					} else if res {
+						r.Report("cross-type", cell, "eq distinct list-vs-single "+vocab.GoTypeName(z), "a list equals a single item that is none of its members: "+cell, cell)
+					}
+				}
+			}
+		}
 		r.Cells(n, n)
 		r.Exhaustive("cross-type", !r.Replaying())
 	}
@@ -692,6 +725,29 @@ func TestC09(t *testing.T) {
 				}
 			}
 			law += "+distinct"
+		}
+		// law 6: a non-empty list is never equal to a single object or IRI whose id is none of its members'
+		if isList := ap.IsItemCollection(x) || ap.IsIRIs(x); isList && rapid.IntRange(0, 1).Draw(t, "list-vs-single") == 0 {
+			n := 0
+			_ = ap.OnItemCollection(x, func(c *ap.ItemCollection) error { n = len(*c); return nil })
+			if n > 0 {
+				var z ap.Item = g.ID("single")
+				if rapid.Bool().Draw(t, "single-object") {
+					z = g.Value(rapid.SampledFrom(goTypeNames[:13]).Draw(t, "singletype"), 0, false)
+				}
+				for _, ord := range []string{"x,z", "z,x"} {
+					a, b := x, z
+					if ord == "z,x" {
+						a, b = z, x
+					}
+					if res, key, detail := c09Equal(a, b); key != "" {
+						add(key+" "+ord, detail)
+					} else if res {
+						add("eq distinct list-vs-single "+vocab.GoTypeName(z), fmt.Sprintf("a list equals a single item that is none of its members (%s); single = %s", ord, clipStr(vocab.Dump(z), 300)))
+					}
+				}
+				law += "+list-vs-single"
+			}
 		}
 		labels := append(ft.Labels("random"), "random law="+law, "random feature="+c09Feature(x))
 		_, isIRI := x.(ap.IRI)
